@@ -152,7 +152,9 @@ def replay_file(prop: str, path: str) -> int:
 
 def _verify_replay_fresh(prop: str, path: Path) -> bool:
     env = dict(os.environ)
-    env["PYTHONHASHSEED"] = "777"
+    # (the hash seed the check itself runs with: a violation that *is* a dependence on string hashing compares this
+    # interpreter with fresh ones under other values and has to see the same side here)
+    env["PYTHONHASHSEED"] = "0"
     cmd = [sys.executable, str(ROOT / "check"), prop, "--replay", str(path)]
     proc = subprocess.run(cmd, capture_output=True, text=True, env=env, cwd=ROOT, timeout=600)
     return proc.returncode == EXIT_VIOLATION and "VIOLATION" in proc.stdout
